@@ -227,6 +227,18 @@ def run_shard(args):
             _hypothesis_phase(mod, known, stats, tier, seed * 1000 + shard, examples,
                               t0, wall, budget)
 
+        # 3b. further generated phases with their own (small) budgets, e.g. real-process tiers
+        for k, extra in enumerate(getattr(mod, "EXTRA_STRATEGIES", [])):
+            if stats.fail_last is not None:
+                break
+            n = int(extra["examples"][tier])
+            # the examples of an extra phase are spread over the shards
+            mine = n // nshards + (1 if shard < n % nshards else 0)
+            if mine > 0:
+                _hypothesis_phase(mod, known, stats, tier, seed * 1000 + shard + 7919 * (k + 1), mine, t0,
+                                  wall + float(extra.get("wall_s", 120)), budget, strategy=extra["strategy"](tier))
+                stats.extra[extra["name"] + "_cases"] = stats.extra.get(extra["name"] + "_cases", 0) + mine
+
         # 4. property-specific extra phases (real processes, atheris, ...)
         if hasattr(mod, "extra_phases") and stats.fail_last is None:
             mod.extra_phases(tier, seed, shard, nshards, stats,
@@ -238,7 +250,7 @@ def run_shard(args):
     return stats.to_json()
 
 
-def _hypothesis_phase(mod, known, stats, tier, seed, examples, t0, wall, budget):
+def _hypothesis_phase(mod, known, stats, tier, seed, examples, t0, wall, budget, strategy=None):
     import hypothesis
     from hypothesis import HealthCheck, Phase, given, settings
 
@@ -256,7 +268,7 @@ def _hypothesis_phase(mod, known, stats, tier, seed, examples, t0, wall, budget)
         suppress_health_check=list(HealthCheck),
         phases=[Phase.generate, Phase.shrink],
     )
-    @given(mod.strategy(tier))
+    @given(strategy if strategy is not None else mod.strategy(tier))
     def test(case):
         if stats.fail_first is None:
             if time.monotonic() - t0 > wall:
